@@ -340,6 +340,25 @@ func extractC08(c *ctx) (Facts, error) {
 		facts["publish_guard_nil_publisher_returns_error"] = g2
 	}
 
+	// ---- exact control-flow skeletons of the two functions that decide what is published and how the message is settled
+	// (logger lines dropped): any inserted condition between the function's return and the publish breaks these
+	c08NoLog := func(lines []string) []string {
+		var out []string
+		for _, l := range lines {
+			if strings.Contains(l, "logger.") || strings.Contains(l, "msgFields :=") {
+				continue
+			}
+			out = append(out, l)
+		}
+		return out
+	}
+	if fd := get(rel, "handler", "handleMessage"); fd != nil {
+		facts["skeleton_handleMessage"] = c08NoLog(c.skeleton(fd))
+	}
+	if fd := get(rel, "handler", "publishProducedMessages"); fd != nil {
+		facts["skeleton_publishProducedMessages"] = c08NoLog(c.skeleton(fd))
+	}
+
 	// ---- generated Lean
 	var sb strings.Builder
 	sb.WriteString("/- GENERATED by harness/cmd/extract from message/router.go and message/router_context.go on every run – do not edit -/\n")
